@@ -45,21 +45,65 @@ def norm(x):
     return json.loads(json.dumps(x, sort_keys=True))
 
 
-def gen_history(rng, n=None):
-    """A DAG of publishing tasks: task i has parents (earlier tasks); a task with >=2 parents is a join.
-    returns list of {'name','parents':[names],'published':dict}"""
-    n = n or rng.randint(2, 8)
+# skeletons of nested values: a leaf is None; republishing a variable with the SAME skeleton is
+# shape-stable, republishing a sub-skeleton (some leaves dropped) is the "wholesale republication
+# without a leaf" that the leaf-granular monitor has to get right
+SKELETONS = [None, None, {'k': None}, {'k': {'m': None}}, {'k': None, 'n': None},
+             {'x': None, 'y': None}, {'x': None, 'y': None, 'z': {'m': None}}, {'x': {'p': None, 'q': None}, 'y': None}]
+
+
+def fill(rng, skel, tag):
+    """a value of the given skeleton whose leaves are (mostly) unique to `tag` - a stale copy is then
+    distinguishable from the value of the latest publisher"""
+    if isinstance(skel, dict):
+        return {k: fill(rng, v, tag + k) for k, v in skel.items()}
+    r = rng.random()
+    if r < 0.45:
+        return '%s' % tag
+    if r < 0.7:
+        return rng.randint(0, 3)
+    if r < 0.85:
+        return [tag, rng.randint(0, 9)]
+    return rng.choice([None, True, False, 'a', []])
+
+
+def sub_skeleton(rng, skel, keep=None):
+    """a copy of a dict skeleton with some leaves dropped (never all of them unless the skeleton is a leaf)"""
+    if not isinstance(skel, dict):
+        return skel
+    keys = list(skel)
+    kept = [k for k in keys if (keep is not None and k in keep) or rng.random() < 0.6]
+    if not kept:
+        kept = [rng.choice(keys)]
+    return {k: skel[k] for k in kept}
+
+
+def gen_random(rng, n=None):
+    """A DAG of publishing tasks: task i has parents (earlier tasks, listed in a RANDOM order: the
+    order the database lists the rows); a task with >=2 parents is a join; 12% of the later tasks are
+    further roots (a branch whose context never saw the variables of the others)."""
+    n = n or rng.randint(2, 9)
     tasks = []
     # 75% of the histories keep the shape of every variable (where the property is claimed to
     # hold); the rest mix shapes freely (exercises known finding G)
     shapes = {} if rng.random() < 0.75 else None
+    unique = rng.random() < 0.5
     for i in range(n):
-        k = 0 if i == 0 else rng.choice([1, 1, 1, 2, 2, 3])
-        parents = sorted(rng.sample(range(i), min(k, i)))
+        k = 0 if i == 0 else rng.choice([0, 1, 1, 1, 1, 2, 2, 2, 3, 3, 4]) if rng.random() < 0.5 \
+            else rng.choice([1, 1, 1, 2, 2, 3])
+        parents = rng.sample(range(i), min(k, i))
         pub = {}
         for _ in range(rng.choice([0, 1, 1, 2])):
             v = rng.choice(VARS)
-            if shapes is not None and rng.random() < 0.97:
+            if unique:
+                if shapes is not None:
+                    sk = shapes.setdefault(v, rng.choice(SKELETONS))
+                    if rng.random() < 0.12:
+                        sk = sub_skeleton(rng, sk)      # wholesale republication without some leaf
+                else:
+                    sk = rng.choice(SKELETONS)
+                pub[v] = fill(rng, sk, 't%d%s' % (i, v))
+            elif shapes is not None and rng.random() < 0.97:
                 # shape-preserving republish: same leaf-path set as the first value of this variable
                 cands = [x for x in VALS if leaf_paths(x) == shapes.setdefault(v, leaf_paths(rng.choice(VALS)))]
                 pub[v] = copy.deepcopy(rng.choice(cands))
@@ -67,6 +111,106 @@ def gen_history(rng, n=None):
                 pub[v] = copy.deepcopy(rng.choice(VALS))
         tasks.append({'name': 't%d' % i, 'parents': ['t%d' % p for p in parents], 'published': pub})
     return tasks
+
+
+class _B(object):
+    """history builder for the motif generators"""
+
+    def __init__(self, rng):
+        self.rng = rng
+        self.tasks = []
+
+    def add(self, parents, pub=None):
+        ps = list(parents)
+        self.rng.shuffle(ps)
+        name = 't%d' % len(self.tasks)
+        self.tasks.append({'name': name, 'parents': ps, 'published': pub or {}})
+        return name
+
+    def chain(self, frm, k, noise=True):
+        """k inheriting tasks below frm (each may publish an unrelated variable)"""
+        cur = frm
+        for _ in range(k):
+            cur = self.add([cur], {'v3': fill(self.rng, None, cur)} if noise and self.rng.random() < 0.3 else {})
+        return cur
+
+
+def gen_fork_nested(rng):
+    """Motif: a nested dict published BEFORE a fork; inside the fork one branch republishes ONE leaf
+    (the whole dict with a new value for it), a sibling republishes the dict WHOLESALE WITHOUT that leaf
+    (or with the same skeleton: the shape-stable variant), others merely inherit; then two or three
+    CHAINED joins, each of which meets a branch that still carries the copy from before the fork."""
+    b = _B(rng)
+    v = rng.choice(VARS[:3])
+    skel = rng.choice([s for s in SKELETONS if isinstance(s, dict) and len(s) >= 2])
+    leafk = rng.choice(list(skel))
+    root = b.add([], {v: fill(rng, skel, 'r')})
+    root = b.chain(root, rng.choice([0, 0, 1]))
+    stable = rng.random() < 0.35
+    # the branch that republishes the leaf
+    a = b.chain(root, rng.choice([0, 0, 1]))
+    a = b.add([a], {v: fill(rng, skel if rng.random() < 0.7 else sub_skeleton(rng, skel, keep=[leafk]), 'a')})
+    a = b.chain(a, rng.choice([0, 0, 1]))
+    # the sibling that republishes wholesale without the leaf (or publishes nothing / the same shape)
+    r = rng.random()
+    if stable:
+        sib_pub = {v: fill(rng, skel, 'b')} if r < 0.5 else {}
+    else:
+        drop = {k: s for k, s in skel.items() if k != leafk}
+        sib_pub = {v: fill(rng, sub_skeleton(rng, drop) if rng.random() < 0.5 else drop, 'b')}
+    sib = b.add([b.chain(root, rng.choice([0, 0, 1]))], sib_pub)
+    sib = b.chain(sib, rng.choice([0, 0, 1]))
+    inh = [b.chain(root, rng.choice([1, 1, 2])) for _ in range(rng.choice([1, 2, 2, 3]))]
+    first = [a, sib] + ([inh.pop()] if len(inh) > 1 and rng.random() < 0.3 else [])
+    j = b.add(first)
+    for e in inh:
+        j = b.chain(j, rng.choice([0, 1, 1]))
+        if rng.random() < 0.25:
+            # one more publication of the leaf on the path between the joins
+            j = b.add([j], {v: fill(rng, skel, 'c')})
+        j = b.add([j, e])
+    b.chain(j, rng.choice([0, 1]))
+    return b.tasks
+
+
+def gen_multi_root(rng):
+    """Motif: a merge of >= 3 contexts whose BASE never saw the variable: the variable is published
+    twice along one branch (p1 then p2), a sibling still carries the older value, and one or two branches
+    start at independent roots; all of them meet in one join (every row order is evaluated) or in two
+    chained joins."""
+    b = _B(rng)
+    v = rng.choice(VARS[:3])
+    skel = rng.choice(SKELETONS)
+    p1 = b.add([], {v: fill(rng, skel, 'p')})
+    p1 = b.chain(p1, rng.choice([0, 0, 1]))
+    older = [b.chain(p1, rng.choice([1, 1, 2])) for _ in range(rng.choice([1, 1, 2]))]
+    p2 = b.add([b.chain(p1, rng.choice([0, 1]))], {v: fill(rng, skel, 'q')})
+    if rng.random() < 0.3:
+        p2 = b.add([p2], {v: fill(rng, skel, 's')})
+    p2 = b.chain(p2, rng.choice([0, 0, 1]))
+    roots = []
+    for i in range(rng.choice([1, 1, 2])):
+        r = b.add([], {'v3': fill(rng, None, 'o%d' % i)} if rng.random() < 0.6 else {})
+        roots.append(b.chain(r, rng.choice([0, 1, 1]), noise=False))
+    ends = [p2] + older + roots
+    if len(ends) <= 4 and rng.random() < 0.6:
+        j = b.add(ends)
+    else:
+        rng.shuffle(ends)
+        j = b.add(ends[:2])
+        for e in ends[2:]:
+            j = b.add([b.chain(j, rng.choice([0, 1]), noise=False), e])
+    b.chain(j, rng.choice([0, 1]))
+    return b.tasks
+
+
+def gen_history(rng, n=None):
+    r = rng.random()
+    if n is not None or r < 0.5:
+        return gen_random(rng, n)
+    if r < 0.78:
+        return gen_fork_nested(rng)
+    return gen_multi_root(rng)
 
 
 def run_history(ctx, hist, hashed):
@@ -82,6 +226,8 @@ def run_history(ctx, hist, hashed):
     inb = {}
     outb = {}
     ok = True
+    causal = Causal(hist)
+    ctx.count('ctx', 'history:' + hist_class(hist, causal))
     for t in hist:
         # ---- inbound context = upstream of the parents' outbound contexts (real code)
         parents = t['parents']
@@ -114,6 +260,9 @@ def run_history(ctx, hist, hashed):
                 ctx.disagree('ctx', {'fn': 'upstream', 'outs': outs}, mo, io)
                 ok = False
             results.append(norm(io))
+            # ---- C05 monitor, leaf-granular, on the inbound context of EVERY row order
+            check_leaves(ctx, 'ctx', causal, t['name'], io['data'],
+                         {'history': hist, 'task': t['name'], 'order': order})
         # ---- C05 monitor: order independence when publishers are causally ordered or agree
         if len(results) > 1 and any(r != results[0] for r in results):
             conflict = conflicting(hist, t)
@@ -149,21 +298,162 @@ def run_history(ctx, hist, hashed):
         # ---- C05 monitor: latest causal publisher wins
         check_latest(ctx, hist, t, in_ctx)
     cfg.CONF.clear_override('hash_version_keys', group='context_versioning')
+    tie_history(ctx, drv, hist, causal, inb, outb)
     return inb
+
+
+def tie_history(ctx, drv, hist, causal, inb, outb):
+    """Stream `hist`: the tie of Model/Hist.lean (the run the causal theorems are about).  The Lean run of the
+    WHOLE history (parents in the listed order) must reproduce the inbound and the outbound context the real
+    functions computed for every task, and the causal ancestors; and the decidable hypothesis of the theorems
+    (shape-stable republication at a leaf path, `StableHist`) as evaluated by Lean must be what the monitor
+    reads off the history."""
+    idx = {t['name']: i for i, t in enumerate(hist)}
+    tasks = [{'parents': [idx[p] for p in t['parents']], 'published': t['published']} for t in hist]
+    rows = drv.call('ctx.run', {'tasks': tasks})
+    for t, row in zip(hist, rows):
+        real = {'in': canon_ctx(inb[t['name']] or {}), 'out': canon_ctx(outb[t['name']]),
+                'anc': sorted(idx[a] for a in causal.anc[t['name']])}
+        model = {'in': row['in'], 'out': row['out'], 'anc': sorted(set(row['anc']))}
+        ctx.evaluated('hist', [tasks[:idx[t['name']] + 1]], nontrivial=len(t['parents']) >= 2 or bool(t['published']))
+        if norm(model) != norm(real):
+            ctx.disagree('hist', {'fn': 'run', 'history': hist, 'task': t['name']}, model, real)
+    paths = set()
+    for t in hist:
+        for v in causal.leaves[t['name']]:
+            paths |= set(causal.leaves[t['name']][v])
+    for p in sorted(paths):
+        mine = all(p in causal.leaves[t['name']][p[0]] for t in hist if p[0] in t['published']) and \
+            not any('.'.join(q) == '.'.join(p) and q != p for t in hist for v in causal.leaves[t['name']]
+                    for q in causal.leaves[t['name']][v])
+        lean = drv.call('ctx.stable', {'tasks': tasks, 'var': p[0], 'rest': list(p[1:])})
+        ctx.evaluated('hist', ['stable', tasks, list(p)], nontrivial=True)
+        ctx.count('hist', 'path:%s' % ('shape-stable(theorem applies)' if lean else 'republished-with-another-shape'))
+        if bool(lean) != bool(mine):
+            ctx.disagree('hist', {'fn': 'stable', 'history': hist, 'path': list(p)}, lean, mine)
+        # the weaker hypotheses (Props.C05Drop): spine-stable = no publication CLASHES with the path;
+        # DropsLow = a task that republishes the variable without the leaf saw a version <= 1 of it - read off
+        # the REAL inbound contexts here, decided on the model run by Lean
+        pubs = [t for t in hist if p[0] in t['published']]
+        spine = not any(clashes(t['published'][p[0]], p[1:]) for t in pubs) and \
+            not any('.'.join(q) == '.'.join(p) and q != p for t in hist for v in causal.leaves[t['name']]
+                    for q in causal.leaves[t['name']][v])
+        drops = [t for t in pubs if lookup(t['published'], p)[0] == 'absent']      # as Hist.Drops
+        low = all(canon_ctx(inb[t['name']] or {})['vers'].get('.'.join(p), 0) <= 1 for t in drops)
+        lean2 = drv.call('ctx.stable2', {'tasks': tasks, 'var': p[0], 'rest': list(p[1:])})
+        ctx.evaluated('hist', ['stable2', tasks, list(p)], nontrivial=bool(drops))
+        if not lean:
+            ctx.count('hist', 'path:%s' % ('leaf dropped, weaker theorem applies' if lean2['spine'] and lean2['dropsLow']
+                                           else 'outside the theorems (finding G territory)'))
+        if norm(lean2) != norm({'spine': spine, 'dropsLow': low}):
+            ctx.disagree('hist', {'fn': 'stable2', 'history': hist, 'path': list(p)}, lean2,
+                         {'spine': spine, 'dropsLow': low})
+
+
+def _h(*tasks):
+    return [{'name': 't%d' % i, 'parents': ['t%d' % p for p in ps], 'published': pub} for i, (ps, pub) in enumerate(tasks)]
+
+
+# the histories of the Lean examples (Props.C05Causal.exH, Props.C05Drop.exD) and of the counter-witness
+# Props.C05Drop.exG (drop_after_two_generations_fails), with the expected visible d.x at the last join
+WITNESSES = [
+    ('exH', _h(([], {'d': {'x': 0, 'y': 0}}), ([0], {'d': {'x': 'A', 'y': 0}}), ([0], {}), ([0], {'w': 1}),
+               ([2, 1], {}), ([4, 3], {})), 'A'),
+    ('exD', _h(([], {'d': {'x': 0, 'y': 0}}), ([0], {'d': {'x': 'A', 'y': 0}}), ([0], {'d': {'y': 'B'}}), ([0], {}),
+               ([1, 2], {}), ([4], {}), ([5, 3], {})), 'A'),
+    ('exG', _h(([], {'d': {'x': 0, 'y': 0}}), ([0], {'d': {'x': 'A', 'y': 0}}), ([1], {'d': {'y': 'Z'}}), ([0], {}),
+               ([1], {}), ([3, 2], {}), ([4, 5], {})), 0),
+]
+
+
+def run_witnesses(ctx):
+    """the histories the Lean examples / the `_fails` theorem are about, on the REAL functions: exH and exD show
+    the value the theorems give, exG shows the stale value (that is the replay of the counter-witness; the
+    monitor files it under known finding G)"""
+    for name, hist, want in WITNESSES:
+        for hashed in (False, True):
+            inb = run_history(ctx, copy.deepcopy(hist), hashed)
+            got = lookup(inb[hist[-1]['name']], ('d', 'x'))
+            ctx.evaluated('hist', ['witness', name, hashed], nontrivial=True)
+            ctx.count('hist', 'witness:%s' % name)
+            if got != ('leaf', want):
+                ctx.disagree('hist', {'fn': 'witness', 'name': name, 'history': hist}, ['leaf', want], list(got))
 
 
 def run_chunk(ctx, n_histories):
     rng = ctx.rng
+    if getattr(ctx, 'chunk', 0) == 0:
+        run_witnesses(ctx)
     for hi in range(n_histories):
         hashed = rng.random() < 0.5
         ctx.count('ctx', 'hashed-version-keys' if hashed else 'plain-version-keys')
         hist = gen_history(rng)
         inb = run_history(ctx, hist, hashed)
+        tie_lookup(ctx, rng, inb[hist[-1]['name']])
         if rng.random() < 0.01:
             ctx.sample({'stream': 'ctx', 'history': hist, 'final_in': inb[hist[-1]['name']]})
 
 
+def tie_lookup(ctx, rng, in_ctx):
+    """the REAL ContextView over (inbound context, environment, workflow context = vars, input) vs
+    Ctx.viewLookup: the value comes from the first layer that has the key ("falling back to workflow input,
+    vars and environment"); and the view never modifies its layers"""
+    from harness import boot
+    boot.boot()
+    from mistral.workflow import data_flow
+    drv = ctx.driver()
+    pool = VARS + ['x', 'w0']
+
+    def layer():
+        return {k: copy.deepcopy(rng.choice(VALS)) for k in rng.sample(pool, rng.randint(0, 3))}
+    layers = [{k: v for k, v in (in_ctx or {}).items() if k != '__versions'}, {'__env': layer()}, layer(), layer()]
+    before = copy.deepcopy(layers)
+    view = data_flow.ContextView(*layers)
+    for k in pool + ['__env']:
+        try:
+            real = {'found': view[k]}
+        except KeyError:
+            real = 'KeyError'
+        if (k in view) != (real != 'KeyError') or view.get(k, '<d>') != (real['found'] if real != 'KeyError' else '<d>'):
+            ctx.violation('ContextView.__contains__/get disagree with __getitem__', {'layers': layers, 'key': k},
+                          {'kind': 'context-view-inconsistent'})
+        # statement monitor: "falling back to workflow input, vars and environment" - the value is the one of
+        # the FIRST of (inbound context, environment, workflow context, input) that has the variable
+        first = next((d for d in before if k in d), None)
+        exp = 'KeyError' if first is None else {'found': first[k]}
+        if norm(exp) != norm(real):
+            ctx.violation('ContextView lookup of %r does not return the value of the first layer that has it' % k,
+                          {'lookup': True, 'layers': before, 'key': k, 'expected': exp, 'got': real},
+                          {'kind': 'lookup-priority'})
+        mo = drv.call('ctx.lookup', {'layers': layers, 'key': k})
+        ctx.evaluated('lookup', [layers, k], nontrivial=sum(1 for d in layers if k in d) >= 2)
+        ctx.count('lookup', 'found-in-layer:%s' % next((i for i, d in enumerate(layers) if k in d), 'none'))
+        if norm(mo) != norm(real):
+            ctx.disagree('lookup', {'layers': layers, 'key': k}, mo, real)
+    if layers != before:
+        ctx.violation('ContextView modified a layer', {'layers': before}, {'kind': 'stored-context-mutated', 'fn': 'ContextView'})
+
+
+def replay_lookup(ctx, rep):
+    from harness import boot
+    boot.boot()
+    from mistral.workflow import data_flow
+    layers, k = rep['layers'], rep['key']
+    view = data_flow.ContextView(*copy.deepcopy(layers))
+    try:
+        real = {'found': view[k]}
+    except KeyError:
+        real = 'KeyError'
+    first = next((d for d in layers if k in d), None)
+    exp = 'KeyError' if first is None else {'found': first[k]}
+    if norm(exp) != norm(real):
+        ctx.violation('ContextView lookup of %r does not return the value of the first layer that has it' % k,
+                      dict(rep, got=real), {'kind': 'lookup-priority'})
+
+
 def replay(ctx, rep):
+    if rep.get('lookup'):
+        return replay_lookup(ctx, rep)
     hist = rep['history']
     run_history(ctx, [{k: v for k, v in t.items() if k != 'hashed'} for t in hist], hist[0].get('hashed', True))
 
@@ -239,6 +529,150 @@ def check_latest(ctx, hist, t, in_ctx):
         ctx.count('ctx', 'latest-checked')
         if norm(got) != norm(exp):
             # nested dict values merge key-wise by design only when both sides are dicts
-            sig = ({'kind': 'versioning-value-shape-change'} if shape_change(hist) else {'kind': 'stale-value'})
+            # (finding G is about MERGES: with no join at or above the task a wrong value is never G)
+            merged = any(len(by[a]['parents']) >= 2 for a in anc | {t['name']})
+            sig = ({'kind': 'versioning-value-shape-change'} if shape_change(hist) and merged
+                   else {'kind': 'stale-value'})
             ctx.violation('a task does not see the value of the causally latest publisher',
                           {'history': hist, 'task': t['name'], 'var': v, 'expected': exp, 'got': got}, sig)
+
+
+# ---------------------------------------------------------------------------------------------
+# The LEAF-granular causal monitor (a direct reading of the statement at the granularity at which
+# the code versions data: one version per leaf path of a published value).
+#
+# For a task t and a leaf path p = (var, k1, .., kn):
+#   P  = the ancestors of t whose published value of `var` has p as a leaf      (publishers of p)
+#   M  = the members of P that are not a strict causal ancestor of another one  (maximal publishers)
+#   SC = the ancestors that publish `var` with a value in which p is NOT a leaf (they republish the
+#        variable wholesale without p, or with another shape at/above p)
+# "never replaced at a join by a stale copy another branch merely inherited": a leaf value visible to t
+# is the value of a member of M - never only that of a publisher which is a strict ancestor of another
+# publisher of p on a path to t.  "the one published by the latest task on the causal path": when M is a
+# single task its value is the visible one.  A leaf that is not visible (absent, or a dict in its
+# place) is legitimate only below a wholesale republication that no publisher of p causally follows.
+# What the versioning scheme cannot order at all is a republication with ANOTHER SHAPE (versions are
+# keyed by the leaf paths of the NEW value): such deviations carry the signature of known finding G.
+def leaf_map(val, pre):
+    if isinstance(val, dict):
+        res = {}
+        for k, x in val.items():
+            res.update(leaf_map(x, pre + (k,)))
+        return res
+    return {pre: val}
+
+
+def lookup(data, path):
+    cur = data
+    for i, k in enumerate(path):
+        if not isinstance(cur, dict) or k not in cur:
+            return ('absent', None)
+        cur = cur[k]
+    return ('dict', None) if isinstance(cur, dict) else ('leaf', cur)
+
+
+def clashes(val, path):
+    """the value has ANOTHER SHAPE at the path: a non-dict at a proper prefix of it, or a dict at it (as
+    opposed to: dicts all the way down to a key that is simply missing)"""
+    cur = val
+    for k in path:
+        if not isinstance(cur, dict):
+            return True
+        if k not in cur:
+            return False
+        cur = cur[k]
+    return isinstance(cur, dict)
+
+
+def two_generations(causal, P, d):
+    """task d has two publishers of the leaf among its causal ancestors one of which follows the other"""
+    above = [q for q in P if q in causal.anc[d]]
+    return any(a in causal.anc[b] for a in above for b in above)
+
+
+class Causal(object):
+    """strict-ancestor sets and per-task leaf maps of a history [{'name','parents','published'}]"""
+
+    def __init__(self, hist):
+        self.by = {t['name']: t for t in hist}
+        self.anc = {}
+        for t in hist:          # histories are listed in a topological order
+            a = set()
+            for p in t['parents']:
+                if p in self.anc:
+                    a.add(p)
+                    a |= self.anc[p]
+            self.anc[t['name']] = a
+        self.leaves = {t['name']: {v: leaf_map(val, (v,)) for v, val in (t['published'] or {}).items()}
+                       for t in hist}
+
+    def before(self, a, b):
+        """a is b or a strict causal ancestor of b"""
+        return a == b or a in self.anc[b]
+
+
+def hist_class(hist, causal):
+    joins = [t for t in hist if len(t['parents']) >= 2]
+    roots = [t for t in hist if not t['parents']]
+    chained = any(any(j2['name'] in causal.anc[j['name']] for j2 in joins) for j in joins)
+    nested = any(isinstance(v, dict) and v for t in hist for v in t['published'].values())
+    return '%s%s%s%s' % ('nested,' if nested else 'flat,', 'chained-joins,' if chained else
+                         ('join,' if joins else 'no-join,'), 'wide,' if any(len(j['parents']) >= 3 for j in joins)
+                         else '', 'multi-root' if len(roots) > 1 else 'one-root')
+
+
+def check_leaves(ctx, stream, causal, tname, data, replay, inputs=None):
+    anc = causal.anc[tname]
+    data = data or {}
+    # finding G is about MERGES: with no join at or above the task no deviation is ever classified as G
+    merged = any(len(causal.by[a]['parents']) >= 2 for a in anc | {tname})
+    by_var = {}
+    for a in anc:
+        for v in causal.leaves[a]:
+            by_var.setdefault(v, []).append(a)
+    for v, pubs in sorted(by_var.items()):
+        paths = set()
+        for a in pubs:
+            paths |= set(causal.leaves[a][v])
+        for p in sorted(paths):
+            P = [a for a in pubs if p in causal.leaves[a][v]]
+            SC = [a for a in pubs if p not in causal.leaves[a][v]]
+            M = [q for q in P if not any(q in causal.anc[q2] for q2 in P)]
+            kind, x = lookup(data, p)
+            ctx.count(stream, 'leaf-checked:%s%s' % ('unique-latest' if len(M) == 1 else 'concurrent',
+                                                     ',republished-without' if SC else ''))
+            what = sig = None
+            if kind == 'leaf':
+                if any(norm(x) == norm(causal.leaves[q][v][p]) for q in M):
+                    continue
+                cands = [w for w in P if norm(causal.leaves[w][v][p]) == norm(x)]
+                if not cands:
+                    what = 'the visible value of %s was published by no causal predecessor' % '.'.join(p)
+                    sig = {'kind': 'leaf-value-from-nowhere'}
+                else:
+                    # known finding G needs a republication whose value CLASHES with the path (a non-dict above
+                    # it, or a dict at it: any inherited copy of such a value is compared under another version
+                    # key), or a wholesale republication WITHOUT the leaf by a task that has already seen TWO
+                    # generations of it (its context keeps the version without the value and a staler copy
+                    # inherits it at the next join).  Outside that (Props.C05Drop: spine-stable republication,
+                    # DropsLow) the statement is a theorem of the model and a deviation is a violation.
+                    g = any(clashes(causal.by[d]['published'][v], p[1:]) or two_generations(causal, P, d)
+                            for d in SC)
+                    what = ('task %s sees %s = %r, the copy of %s, although %s published it causally later'
+                            % (tname, '.'.join(p), x, cands, M))
+                    sig = {'kind': 'versioning-value-shape-change'} if g and merged else {'kind': 'stale-leaf-value'}
+            else:
+                if not SC:
+                    what = ('every causal predecessor of %s that publishes %s publishes the leaf %s, yet it is '
+                            'not visible (%s)' % (tname, v, '.'.join(p), kind))
+                    sig = {'kind': 'leaf-lost'}
+                elif any(not any(d in causal.anc[q] for q in P) for d in SC):
+                    continue        # below a wholesale republication without p that no publisher of p follows
+                else:
+                    what = ('leaf %s is not visible to %s (%s) although %s published it after every '
+                            'republication of another shape' % ('.'.join(p), tname, kind, M))
+                    clash = any(clashes(causal.by[d]['published'][v], p[1:]) for d in SC)
+                    sig = {'kind': 'versioning-value-shape-change'} if merged and clash else {'kind': 'leaf-lost'}
+            ctx.count(stream, 'leaf-monitor-hit:' + sig['kind'])
+            ctx.violation(what, dict(replay, leaf=list(p), visible=[kind, x], publishers=sorted(P),
+                                     maximal=sorted(M), other_shape=sorted(SC)), sig)
